@@ -174,7 +174,10 @@ Record koracle := mk_ko {
   ko_ex : Q -> bool;        (* pid_exists, also what is_running() answers (no PID reuse) *)
   ko_pid : Z }.
 
-Inductive cbkind := CbNone | CbOk | CbBad.   (* callback=None / a callable / not callable *)
+(* the callback argument: None / a callable / not callable.  A callable may be falsy in Python (an empty
+   list subclass with __call__, __len__ = 0, __bool__ = False): `truthy` records bool(callback), and nothing in
+   the code under model looks at it -- presence is tested with `is not None`, never with a truth test *)
+Inductive cbkind := CbNone | CbOk (truthy : bool) | CbBad.
 
 Record gst := mk_gst {
   g_now : Q;
@@ -211,7 +214,7 @@ Section WaitProcs.
       if (match r with RNone => negb (ko_ex k t') | _ => true end)
       then (None, {| g_now := t'; g_objs := g_objs g1; g_gone := g_gone g1 ++ [i];
                      g_rc := (i, r) :: g_rc g1;
-                     g_cb := match cb with CbOk => i :: g_cb g1 | _ => g_cb g1 end;
+                     g_cb := match cb with CbOk _ => i :: g_cb g1 | _ => g_cb g1 end;
                      g_sleeps := g_sleeps g1; g_waits := g_waits g1 |})
       else (None, g1)
     | e => (Some e, g1)
